@@ -114,6 +114,8 @@ func (ch c19) server(cfg c19cfg) *hs.Env {
 		}
 		if sp := wire.ServerParameters(ctx); sp["application_name"] != "verif" || sp["server_encoding"] != "UTF8" {
 			st.problems = append(st.problems, where+": server parameters missing from the command context")
+		} else if sa := sp["session_authorization"]; sa != "lifecycle" {
+			st.problems = append(st.problems, fmt.Sprintf("%s: session_authorization in this connection's context is %q, the connection belongs to \"lifecycle\"", where, sa))
 		}
 		if wire.RemoteAddress(ctx) == nil {
 			st.problems = append(st.problems, where+": remote address missing from the command context")
@@ -273,6 +275,15 @@ func (ch c19) runConn(c *core.Ctx, env *hs.Env, cfg c19cfg, ending string, rng *
 	if closed || len(msgs) == 0 || msgs[len(msgs)-1].T != 'Z' {
 		viol("startup", "session did not reach ReadyForQuery", pg.Kinds(msgs))
 		return
+	}
+	// another user connects (and stays connected) while this connection lives: its per-connection
+	// values must not show up in this connection's context
+	if rng.Intn(3) == 0 && !cfg.Auth {
+		other := hs.NewClient(env.Dial(&c19conn{}))
+		other.C.Send(pg.Startup([][2]string{{"user", "somebody-else"}}))
+		other.C.Quiesce()
+		defer func() { other.C.CloseWrite(); other.C.WaitClosed() }()
+		c.Count("other_user_connected_meanwhile", 1)
 	}
 	// command history
 	checkCancelled := func(upTo int, when string) bool {
